@@ -302,7 +302,20 @@ fn gen_text_corpus(rng: &mut Rng, ext: &str) -> Vec<u8> {
             out.push_str(match rng.below(4) { 0 => "date Wed Oct 19 10:15:25.000 am 2022\n", 1 => "date Mit Okt 19 25:61:61.999 2022\n", 2 => "date\n", _ => "" });
             out.push_str(match rng.below(3) { 0 => "base hex  timestamps absolute\n", 1 => "base dec timestamps relative\n", _ => "" });
             for _ in 0..n {
-                let l = match rng.below(13) {
+                let l = match rng.below(15) {
+                    13 => {
+                        // data field with multi-byte characters at arbitrary byte offsets
+                        let n = rng.below(9);
+                        let chars = ['0', 'A', 'f', ' ', '\u{e9}', '\u{20ac}', '\u{10348}', '7'];
+                        let data: String = (0..(3 * n + rng.below(4))).map(|_| *rng.pick(&chars)).collect();
+                        format!("   {} {}  {:x}             Rx   d {} {}\n", ts(rng, true), rng.below(40), rng.u32() % 0x800, n, data)
+                    }
+                    14 => {
+                        let n = rng.below(20);
+                        let chars = ['0', 'a', ' ', '\u{fc}', '\u{20ac}', '1'];
+                        let data: String = (0..(3 * n + rng.below(4))).map(|_| *rng.pick(&chars)).collect();
+                        format!("{} CANFD {} Rx {:x} name\u{e9} 1 0 {:x} {} {}\n", ts(rng, true), rng.below(300), rng.u32() % 0x800, n % 16, n, data)
+                    }
                     11 => format!("// BusMapping: CAN {} = {}\n", *rng.pick(&[0u32, 1, 31, 255, 256, 99999]), if rng.chance(1, 6) { long_name(rng) } else { "Body".to_string() }),
                     12 => format!("// BusMapping: CANFD{}= x\n//\n// {}\n", rng.below(3), String::from_utf8_lossy(&rng.bytes_upto(20))),
                     8 => format!("   {} {}  {:x}             Rx   d {} {}\n", ts(rng, true), rng.below(40), rng.u32() % 0x800, rng.below(9), (0..rng.below(9)).map(|_| format!("{:02X}", rng.u8())).collect::<Vec<_>>().join(" ")),
